@@ -21,3 +21,7 @@ GENERATORS = []
 # C03: tabulated triangle quadrature rules and the geometric-kernel structure of FunctionSpace/Mesh
 from . import tab_c03 as _tab_c03   # noqa: E402
 GENERATORS.append(_tab_c03.generate)
+
+# C19 / C07: control-flow IR of the load-step drivers + param_index_update slot table; reference table of NonlinearSolve.py
+from . import extract_drivers as _extract_drivers   # noqa: E402
+GENERATORS.append(_extract_drivers.gen_cfg_drivers)
